@@ -1,4 +1,6 @@
 //! vcheck-pure <ID> [quick|thorough]  — checks that need no source hooks.
+mod c12;
+mod c13;
 mod c16;
 mod c17;
 mod wallet;
@@ -13,6 +15,8 @@ fn main() {
         let v: serde_json::Value = serde_json::from_str(&std::fs::read_to_string(path).expect("read replay file")).expect("json");
         let w = &v["witness"];
         match v["property"].as_str().unwrap_or("") {
+            "C12" => c12::replay(w),
+            "C13" => c13::replay(w),
             "C16" => c16::replay(w),
             "C17" => c17::replay(w),
             other => {
@@ -23,6 +27,8 @@ fn main() {
         return;
     }
     match id {
+        "C12" => c12::main(tier),
+        "C13" => c13::main(tier),
         "C16" => c16::main(tier),
         "C17" => c17::main(tier),
         _ => {
